@@ -79,6 +79,36 @@ func RuleDRecursion(c *core.Ctx) {
 					grows, ownChain = true, base
 				}
 			}
+			// (a'') grows through a helper of the module that is given the activation's
+			// own chain and its own path and returns the new chain (extend(chain, file))
+			for v := range chainOrigin {
+				cl, ok := v.(*ssa.Call)
+				if !ok || grows {
+					continue
+				}
+				callee := cl.Call.StaticCallee()
+				if callee == nil || !p.InModule(callee) || callee.Blocks == nil {
+					continue
+				}
+				var base *ssa.Parameter
+				ownPath := false
+				for _, a := range cl.Call.Args {
+					for x := range originSet(p, a, 1) {
+						if q, ok := x.(*ssa.Parameter); ok {
+							if li.carries(p, q, "chain", 0) {
+								base = q
+							}
+							if li.carries(p, q, "path", 0) {
+								ownPath = true
+							}
+						}
+					}
+				}
+				// the helper stores both into what it returns: its result depends on both parameters
+				if base != nil && ownPath {
+					grows, ownChain = true, base
+				}
+			}
 			// (a') grows, linked form: the chain argument is a fresh node that holds the
 			// activation's own path and points to its own chain
 			for v := range chainOrigin {
